@@ -132,6 +132,7 @@ theorem stepC_mu (t : Table) (hwf : CharChainsOK t) (mode : Nat) (input : List N
         · intro h; cases h
         · rename_i r m ic hfound
           -- posIncremented is on, and the match lies inside the input
+          unfold foundC at hfound
           have hpi : sc.posInc = true := by
             split at hfound
             · rename_i r' m' ic' hctx
@@ -166,6 +167,7 @@ theorem stepC_mu (t : Table) (hwf : CharChainsOK t) (mode : Nat) (input : List N
               omega
         · rename_i hfound
           have hnoctx : (selectRuleC t mode s1.dontContract input s1.pos (beforeAttrs t input s1.pos) s1.prevOp sc.posInc sc.vars).ctx = none := by
+            unfold foundC at hfound
             split at hfound
             · cases hfound
             · rename_i hn; exact hn
